@@ -378,6 +378,18 @@ class Ctx:
     unit = self.unit
     unit.reached_labels.add(label)
     g = z3.simplify(goal)
+    # a universally quantified GOAL is proved for fresh constants (sound:
+    # the constants occur nowhere else); the ground terms this creates are
+    # visible to the instance-wise cardinality lemmas
+    while z3.is_quantifier(g) and g.is_forall():
+      consts = [z3.Const(self.sym('sk!' + g.var_name(i)), g.var_sort(i))
+                for i in range(g.num_vars())]
+      g = z3.simplify(z3.substitute_vars(g.body(), *reversed(consts)))
+      if z3.is_eq(g) and g.arg(0).sort() == z3.BoolSort():
+        # an equivalence about the fresh constants: one obligation per
+        # direction
+        g = z3.And(z3.Implies(g.arg(0), g.arg(1)),
+                   z3.Implies(g.arg(1), g.arg(0)))
     base = '%s/%s:%s@L%d' % (self.cur_func, kind, label, self.cur_line)
     name = _name or unit.unique(base)
     hyps = list(self.pc) + list(extra_hyps)
